@@ -1,8 +1,9 @@
 SPECIFICATION Spec
 CONSTANTS
   Vars <- MC_Vars3
-  KindsAt <- MC_KindsQuick
-  ICsAt <- MC_ICsQuick
+  KindsAt <- MC_KindsAll3
+  ICsAt <- MC_ICsAll3
+  LineOK <- MC_LineQuick
   ExoPaths <- MC_ExoPaths
   ConstVal = 5
   MinVars = 1
